@@ -452,6 +452,12 @@ func (c *PullClient) newRequest(method string, url *url.URL) *Request {
 }
 
 func (c *PullClient) receiveResponse() (resp *Response, err error) {
+	// 握手阶段同样需要读超时，否则对端不应答时请求者会被永久阻塞
+	if timeout := config.NetTimeout(); timeout > 0 {
+		if err = c.conn.SetReadDeadline(time.Now().Add(timeout)); err != nil {
+			return nil, err
+		}
+	}
 	resp, err = ReadResponse(c.conn.Reader())
 	if err != nil {
 		return nil, err
